@@ -35,10 +35,10 @@ namespace Flute.Props.C03
 open Flute Flute.FecDec Flute.ObjRecv Flute.Spec Flute.Spec.WriterProto
 
 /-- An object instance is never reported both complete and failed. -/
-theorem never_both (P : Params) (toi maxSize : Nat) (ops : List Op) (st' : St)
+theorem OfRun.never_both (P : Params) (toi maxSize : Nat) (ops : List Op) (st' : St)
     (h : run P (St.new toi maxSize) ops = .ok st') :
     ¬ (Ev.complete ∈ (drop st').wtrace ∧ (Ev.error ∈ (drop st').wtrace ∨ Ev.interrupted ∈ (drop st').wtrace)) := by
-  have hn := (C09.terminal_at_most_once P toi maxSize ops st' h).2
+  have hn := (C09.OfRun.terminal_at_most_once P toi maxSize ops st' h).2
   intro ⟨hc, hf⟩
   -- the failure call `e`
   have key : ∀ e : Ev, e.isTerminal = true → e ≠ .complete → e ∈ (drop st').wtrace → False := by
@@ -62,30 +62,30 @@ theorem never_both (P : Params) (toi maxSize : Nat) (ops : List Op) (st' : St)
 /-- When a Content-MD5 `m` is announced, the writer enabled MD5 checking and the digest of the bytes handed to the writer
     differs from `m` (e.g. payload bytes were altered in transit), the object is not reported complete; once the object is
     dropped its writer has been told `error` or `interrupted` (trace closed, no `complete` in it). -/
-theorem md5_mismatch_errors (P : Params) (toi maxSize : Nat) (ops : List Op) (st' : St) (m : String)
+theorem OfRun.md5_mismatch_errors (P : Params) (toi maxSize : Nat) (ops : List Op) (st' : St) (m : String)
     (h : run P (St.new toi maxSize) ops = .ok st')
     (hm : (drop st').md5 = some m) (hchk : (drop st').md5Check = true) (htl : (drop st').tl ≠ some 0)
     (hne : P.md5 (drop st').written ≠ m) :
     noComplete (drop st').out ∧ Closed (drop st').wtrace := by
-  refine ⟨?_, C09.terminal_by_drop P toi maxSize ops st' h⟩
+  refine ⟨?_, C09.OfRun.terminal_by_drop P toi maxSize ops st' h⟩
   apply Classical.byContradiction
   intro hc
-  exact hne ((C09.complete_only_when_all_written P toi maxSize ops st' h hc).2.1 m hm hchk htl)
+  exact hne ((C09.OfRun.complete_only_when_all_written P toi maxSize ops st' h hc).2.1 m hm hchk htl)
 
 /-- `complete` => exactly the announced number of bytes was written (cenc null) and the digest matched when checked,
     for ALL histories (also corrupted packets) and every cenc. -/
-theorem complete_length_and_digest (P : Params) (toi maxSize : Nat) (ops : List Op) (st' : St)
+theorem OfRun.complete_length_and_digest (P : Params) (toi maxSize : Nat) (ops : List Op) (st' : St)
     (h : run P (St.new toi maxSize) ops = .ok st') (hc : ¬ noComplete (drop st').out) :
     ((drop st').cenc = some .null → ∃ T, (drop st').tl = some T ∧ (drop st').written.length = T) ∧
     (∀ m, (drop st').md5 = some m → (drop st').md5Check = true → (drop st').tl ≠ some 0 →
         P.md5 (drop st').written = m) ∧
     (∀ n, (drop st').cl = some n → (drop st').tl ≠ some 0 → (drop st').written.length = n) :=
-  C09.complete_only_when_all_written P toi maxSize ops st' h hc
+  C09.OfRun.complete_only_when_all_written P toi maxSize ops st' h hc
 
 /-- **complete ⇒ exact**, any scheme, under the sender facts and the codec contract (`GSess.Laws`): for every history of genuine
     packets / FDT entries of the object (`GenOp`: any sub-multiset, order, duplication, transfer), every environment and drop point,
     a writer that was told `complete` was handed exactly the object's transfer bytes `S.T`. -/
-theorem complete_implies_exact (P : Params) (S : GSess) (L : S.Laws P.codec) (toi maxSize : Nat) (ops : List Op) (st' : St)
+theorem OfRun.complete_implies_exact (P : Params) (S : GSess) (L : S.Laws P.codec) (toi maxSize : Nat) (ops : List Op) (st' : St)
     (hops : ∀ op ∈ ops, GenOp S op) (h : run P (St.new toi maxSize) ops = .ok st')
     (hc : ¬ noComplete (drop st').out) : (drop st').written = S.T := by
   have hi := inv_run P _ ops (inv_new toi maxSize) h
@@ -109,7 +109,7 @@ theorem complete_implies_exact (P : Params) (S : GSess) (L : S.Laws P.codec) (to
     the bytes accepted so far are a prefix of the transfer bytes - more precisely the first `k` blocks for some `k`.
     NOT covered: the state after `error()` (the call itself writes nothing - `error_written` - but the invariant does not record
     what was written during the op that ended in the error). -/
-theorem writes_are_prefix (P : Params) (S : GSess) (L : S.Laws P.codec) (toi maxSize : Nat) (ops : List Op) (st' : St)
+theorem OfRun.writes_are_prefix (P : Params) (S : GSess) (L : S.Laws P.codec) (toi maxSize : Nat) (ops : List Op) (st' : St)
     (hops : ∀ op ∈ ops, GenOp S op) (h : run P (St.new toi maxSize) ops = .ok st')
     (hw : st'.writer ≠ some .error) : st'.written <+: S.T := by
   have hi := inv_run P _ ops (inv_new toi maxSize) h
@@ -131,16 +131,16 @@ theorem writes_are_prefix (P : Params) (S : GSess) (L : S.Laws P.codec) (toi max
         rw [this.1]; exact L.pre_prefix _ this.2
 
 /-- No-Code concretely (no contract) -/
-theorem writes_are_prefix_nocode (P : Params) (T : Bytes) (o : Oti) (hs : o.scheme = .noCode)
+theorem OfRun.writes_are_prefix_nocode (P : Params) (T : Bytes) (o : Oti) (hs : o.scheme = .noCode)
     (he : 0 < o.e) (hb : 0 < o.b) (hb32 : o.b < 2 ^ 32) (hT : T.length < 2 ^ 32)
     (toi maxSize : Nat) (ops : List Op) (st' : St)
     (hops : ∀ op ∈ ops, GenOp (noCodeSession T o) op) (h : run P (St.new toi maxSize) ops = .ok st')
     (hw : st'.writer ≠ some .error) : st'.written <+: T :=
-  writes_are_prefix P (noCodeSession T o) (noCodeSession_laws P.codec T o hs he hb hb32 hT) toi maxSize ops st' hops h hw
+  OfRun.writes_are_prefix P (noCodeSession T o) (noCodeSession_laws P.codec T o hs he hb hb32 hT) toi maxSize ops st' hops h hw
 
 /-- history-independent part, ALL histories (also corrupted packets): with cenc null an open or closed writer never got more
     than transfer-length bytes -/
-theorem written_le_transfer_length (P : Params) (toi maxSize : Nat) (ops : List Op) (st' : St)
+theorem OfRun.written_le_transfer_length (P : Params) (toi maxSize : Nat) (ops : List Op) (st' : St)
     (h : run P (St.new toi maxSize) ops = .ok st') (hc : st'.cenc = some .null)
     (hw : st'.writer = some .opened ∨ st'.writer = some .closed) :
     ∃ T, st'.tl = some T ∧ st'.written.length ≤ T := by
@@ -160,18 +160,18 @@ theorem written_le_transfer_length (P : Params) (toi maxSize : Nat) (ops : List 
       omega
 
 /-- **complete ⇒ exact, No-Code concretely** (no contract, every codec value): see the header. -/
-theorem complete_implies_exact_nocode (P : Params) (T : Bytes) (o : Oti) (hs : o.scheme = .noCode)
+theorem OfRun.complete_implies_exact_nocode (P : Params) (T : Bytes) (o : Oti) (hs : o.scheme = .noCode)
     (he : 0 < o.e) (hb : 0 < o.b) (hb32 : o.b < 2 ^ 32) (hT : T.length < 2 ^ 32)
     (toi maxSize : Nat) (ops : List Op) (st' : St)
     (hops : ∀ op ∈ ops, GenOp (noCodeSession T o) op) (h : run P (St.new toi maxSize) ops = .ok st')
     (hc : ¬ noComplete (drop st').out) : (drop st').written = T :=
-  complete_implies_exact P (noCodeSession T o) (noCodeSession_laws P.codec T o hs he hb hb32 hT) toi maxSize ops st' hops h hc
+  OfRun.complete_implies_exact P (noCodeSession T o) (noCodeSession_laws P.codec T o hs he hb hb32 hT) toi maxSize ops st' hops h hc
 
 /-- **complete ⇒ exact, Reed-Solomon GF(2^8) (both variants)**: the session is constructed from `T` (source symbols = the `E`-byte
     slices zero-padded to `E`, repair symbols `rep` = whatever the sender's encoder emits, decoded block = the padded sender block);
     the ONLY hypothesis about the external crate is `hrs`: reconstructing from genuine shards yields genuine shards
     ("never a wrong block from genuine symbols"; differentially tested by engine orecv family codec-contract). Non-empty object. -/
-theorem complete_implies_exact_rs (P : Params) (T : Bytes) (o : Oti) (rep : Nat → Nat → Bytes)
+theorem OfRun.complete_implies_exact_rs (P : Params) (T : Bytes) (o : Oti) (rep : Nat → Nat → Bytes)
     (hs : o.scheme = .rs28 ∨ o.scheme = .rs28us)
     (he : 0 < o.e) (hb : 0 < o.b) (hb32 : o.b < 2 ^ 32) (hT : T.length < 2 ^ 32) (hT0 : 0 < T.length)
     (hrs : ∀ sbn, sbn < (rsSession T o rep).n → ∀ p shards shards',
@@ -181,13 +181,13 @@ theorem complete_implies_exact_rs (P : Params) (T : Bytes) (o : Oti) (rep : Nat 
     (toi maxSize : Nat) (ops : List Op) (st' : St)
     (hops : ∀ op ∈ ops, GenOp (rsSession T o rep) op) (h : run P (St.new toi maxSize) ops = .ok st')
     (hc : ¬ noComplete (drop st').out) : (drop st').written = T :=
-  complete_implies_exact P (rsSession T o rep) (rsSession_laws P.codec T o rep hs he hb hb32 hT hT0 hrs)
+  OfRun.complete_implies_exact P (rsSession T o rep) (rsSession_laws P.codec T o rep hs he hb hb32 hT hT0 hrs)
     toi maxSize ops st' hops h hc
 
 /-- **complete ⇒ exact, RaptorQ / Raptor (and any scheme)**: by contract only.  `D sbn` is tied to the SENDER's block
     (`senderBlock T o sbn <+: D sbn`, at most `K·E` bytes), and the codec contract says the decoder returns `D sbn` from genuine
     symbols - nothing is proved about the raptorq / raptor-code crates themselves. -/
-theorem complete_implies_exact_fec (P : Params) (T : Bytes) (o : Oti) (sym : Nat → Nat → Bytes) (D : Nat → Bytes)
+theorem OfRun.complete_implies_exact_fec (P : Params) (T : Bytes) (o : Oti) (sym : Nat → Nat → Bytes) (D : Nat → Bytes)
     (he : 0 < o.e) (hb : 0 < o.b) (hb32 : o.b < 2 ^ 32) (hT : T.length < 2 ^ 32) (hT0 : 0 < T.length)
     (hD1 : ∀ sbn, sbn < (fecSession T o sym D).n → senderBlock T o sbn <+: D sbn)
     (hD2 : ∀ sbn, sbn < (fecSession T o sym D).n → (D sbn).length ≤ (fecSession T o sym D).K sbn * o.e)
@@ -198,7 +198,7 @@ theorem complete_implies_exact_fec (P : Params) (T : Bytes) (o : Oti) (sym : Nat
     (toi maxSize : Nat) (ops : List Op) (st' : St)
     (hops : ∀ op ∈ ops, GenOp (fecSession T o sym D) op) (h : run P (St.new toi maxSize) ops = .ok st')
     (hc : ¬ noComplete (drop st').out) : (drop st').written = T :=
-  complete_implies_exact P (fecSession T o sym D)
+  OfRun.complete_implies_exact P (fecSession T o sym D)
     (fecSession_laws P.codec T o sym D he hb hb32 hT hT0 hD1 hD2 hsrc hcodec) toi maxSize ops st' hops h hc
 
 /-- non-vacuity: a concrete genuine history (FDT entry, then the single symbol, received twice) meets the hypotheses of
@@ -291,5 +291,93 @@ example :
     (match ObjSess.Sess.run PP {} [.fdt (f 1), .fdt (f 2), .pkt (pk 0 [1, 2]), .pkt (pk 1 [7, 8])] with
      | .ok S => S.log.map (fun c => (c.toi, writtenOf c.all.reverse, c.all.any (fun w => match w with | .complete => true | _ => false)))
      | .error _ => []) = [(1, [1, 2, 7, 8], true), (1, [1, 2], false)] := by decide
+
+/-! ### The theorems, with NO hypothesis on the outcome of the run
+
+`OfRun.*` above are stated for a run that returned (`run = .ok st'`).  `C04.Obj.run_total` shows that every history returns - no Rust
+panic, no hang - under input-side assumptions only (`Feasible`: the decompressor contract `DzOK`, `max_size_allocated < 2^63`, the
+parser ranges `WfOp`: transfer length < 2^48, E < 2^16).  Hence, for EVERY such history the run returns some `st'` and the property
+holds for it; nothing can be violated "inside an op that panics", because no op panics. -/
+
+theorem never_both (P : Params) (toi maxSize : Nat) (ops : List Op)
+    (F : Feasible P maxSize ops) :
+    ∃ st', run P (St.new toi maxSize) ops = .ok st' ∧
+     ((¬ (Ev.complete ∈ (drop st').wtrace ∧ (Ev.error ∈ (drop st').wtrace ∨ Ev.interrupted ∈ (drop st').wtrace)))) :=
+  F.elim toi (fun st' h  => OfRun.never_both P toi maxSize ops st' h)
+
+theorem md5_mismatch_errors (P : Params) (toi maxSize : Nat) (ops : List Op) (m : String)
+    (F : Feasible P maxSize ops) :
+    ∃ st', run P (St.new toi maxSize) ops = .ok st' ∧
+     (((drop st').md5 = some m) →
+      ((drop st').md5Check = true) →
+      ((drop st').tl ≠ some 0) →
+      (P.md5 (drop st').written ≠ m) →
+      (noComplete (drop st').out ∧ Closed (drop st').wtrace)) :=
+  F.elim toi (fun st' h hm hchk htl hne => OfRun.md5_mismatch_errors P toi maxSize ops st' m h hm hchk htl hne)
+
+theorem complete_length_and_digest (P : Params) (toi maxSize : Nat) (ops : List Op)
+    (F : Feasible P maxSize ops) :
+    ∃ st', run P (St.new toi maxSize) ops = .ok st' ∧
+     ((¬ noComplete (drop st').out) →
+      (((drop st').cenc = some .null → ∃ T, (drop st').tl = some T ∧ (drop st').written.length = T) ∧
+    (∀ m, (drop st').md5 = some m → (drop st').md5Check = true → (drop st').tl ≠ some 0 →
+        P.md5 (drop st').written = m) ∧
+    (∀ n, (drop st').cl = some n → (drop st').tl ≠ some 0 → (drop st').written.length = n))) :=
+  F.elim toi (fun st' h hc => OfRun.complete_length_and_digest P toi maxSize ops st' h hc)
+
+theorem complete_implies_exact (P : Params) (S : GSess) (L : S.Laws P.codec) (toi maxSize : Nat) (ops : List Op) (hops : ∀ op ∈ ops, GenOp S op)
+    (F : Feasible P maxSize ops) :
+    ∃ st', run P (St.new toi maxSize) ops = .ok st' ∧
+     ((¬ noComplete (drop st').out) →
+      ((drop st').written = S.T)) :=
+  F.elim toi (fun st' h hc => OfRun.complete_implies_exact P S L toi maxSize ops st' hops h hc)
+
+theorem writes_are_prefix (P : Params) (S : GSess) (L : S.Laws P.codec) (toi maxSize : Nat) (ops : List Op) (hops : ∀ op ∈ ops, GenOp S op)
+    (F : Feasible P maxSize ops) :
+    ∃ st', run P (St.new toi maxSize) ops = .ok st' ∧
+     ((st'.writer ≠ some .error) →
+      (st'.written <+: S.T)) :=
+  F.elim toi (fun st' h hw => OfRun.writes_are_prefix P S L toi maxSize ops st' hops h hw)
+
+theorem writes_are_prefix_nocode (P : Params) (T : Bytes) (o : Oti) (hs : o.scheme = .noCode) (he : 0 < o.e) (hb : 0 < o.b) (hb32 : o.b < 2 ^ 32) (hT : T.length < 2 ^ 32) (toi maxSize : Nat) (ops : List Op) (hops : ∀ op ∈ ops, GenOp (noCodeSession T o) op)
+    (F : Feasible P maxSize ops) :
+    ∃ st', run P (St.new toi maxSize) ops = .ok st' ∧
+     ((st'.writer ≠ some .error) →
+      (st'.written <+: T)) :=
+  F.elim toi (fun st' h hw => OfRun.writes_are_prefix_nocode P T o hs he hb hb32 hT toi maxSize ops st' hops h hw)
+
+theorem written_le_transfer_length (P : Params) (toi maxSize : Nat) (ops : List Op)
+    (F : Feasible P maxSize ops) :
+    ∃ st', run P (St.new toi maxSize) ops = .ok st' ∧
+     ((st'.cenc = some .null) →
+      (st'.writer = some .opened ∨ st'.writer = some .closed) →
+      (∃ T, st'.tl = some T ∧ st'.written.length ≤ T)) :=
+  F.elim toi (fun st' h hc hw => OfRun.written_le_transfer_length P toi maxSize ops st' h hc hw)
+
+theorem complete_implies_exact_nocode (P : Params) (T : Bytes) (o : Oti) (hs : o.scheme = .noCode) (he : 0 < o.e) (hb : 0 < o.b) (hb32 : o.b < 2 ^ 32) (hT : T.length < 2 ^ 32) (toi maxSize : Nat) (ops : List Op) (hops : ∀ op ∈ ops, GenOp (noCodeSession T o) op)
+    (F : Feasible P maxSize ops) :
+    ∃ st', run P (St.new toi maxSize) ops = .ok st' ∧
+     ((¬ noComplete (drop st').out) →
+      ((drop st').written = T)) :=
+  F.elim toi (fun st' h hc => OfRun.complete_implies_exact_nocode P T o hs he hb hb32 hT toi maxSize ops st' hops h hc)
+
+theorem complete_implies_exact_rs (P : Params) (T : Bytes) (o : Oti) (rep : Nat → Nat → Bytes) (hs : o.scheme = .rs28 ∨ o.scheme = .rs28us) (he : 0 < o.e) (hb : 0 < o.b) (hb32 : o.b < 2 ^ 32) (hT : T.length < 2 ^ 32) (hT0 : 0 < T.length) (hrs : ∀ sbn, sbn < (rsSession T o rep).n → ∀ p shards shards',
+        SlotsOK (rsSym T o rep sbn) 0 shards →
+        P.codec.rsReconstruct (sessK T o sbn) p shards = some shards' →
+        SlotsOK (rsSym T o rep sbn) 0 shards') (toi maxSize : Nat) (ops : List Op) (hops : ∀ op ∈ ops, GenOp (rsSession T o rep) op)
+    (F : Feasible P maxSize ops) :
+    ∃ st', run P (St.new toi maxSize) ops = .ok st' ∧
+     ((¬ noComplete (drop st').out) →
+      ((drop st').written = T)) :=
+  F.elim toi (fun st' h hc => OfRun.complete_implies_exact_rs P T o rep hs he hb hb32 hT hT0 hrs toi maxSize ops st' hops h hc)
+
+theorem complete_implies_exact_fec (P : Params) (T : Bytes) (o : Oti) (sym : Nat → Nat → Bytes) (D : Nat → Bytes) (he : 0 < o.e) (hb : 0 < o.b) (hb32 : o.b < 2 ^ 32) (hT : T.length < 2 ^ 32) (hT0 : 0 < T.length) (hD1 : ∀ sbn, sbn < (fecSession T o sym D).n → senderBlock T o sbn <+: D sbn) (hD2 : ∀ sbn, sbn < (fecSession T o sym D).n → (D sbn).length ≤ (fecSession T o sym D).K sbn * o.e) (hsrc : (o.scheme = .noCode ∨ o.scheme = .rs28 ∨ o.scheme = .rs28us) → ∀ sbn, sbn < (fecSession T o sym D).n →
+        D sbn = genuineConcat (sym sbn) 0 ((fecSession T o sym D).K sbn)) (hcodec : ∀ sbn, sbn < (fecSession T o sym D).n →
+        CodecOK P.codec o.scheme (sym sbn) ((fecSession T o sym D).K sbn) o.e sbn (D sbn)) (toi maxSize : Nat) (ops : List Op) (hops : ∀ op ∈ ops, GenOp (fecSession T o sym D) op)
+    (F : Feasible P maxSize ops) :
+    ∃ st', run P (St.new toi maxSize) ops = .ok st' ∧
+     ((¬ noComplete (drop st').out) →
+      ((drop st').written = T)) :=
+  F.elim toi (fun st' h hc => OfRun.complete_implies_exact_fec P T o sym D he hb hb32 hT hT0 hD1 hD2 hsrc hcodec toi maxSize ops st' hops h hc)
 
 end Flute.Props.C03
